@@ -2,12 +2,13 @@
 SPECIFICATION Spec
 CONSTANTS Names <- NamesFour
           Types <- TypesAll
-          Bodies = {"x"}
+          Bodies <- BodyX
+          Readers <- ReadPlain
           Modes = {0}
           Mtimes <- NoMeta
           MaxNodes = 4
           MaxDepth = 3
           MinNodes = 1
           Devs = {}
-INVARIANTS TypeOK RoundTrip ShallowWalk EscapedSafe
+INVARIANTS TypeOK RoundTrip StreamFinite ShallowWalk EscapedSafe
 CHECK_DEADLOCK FALSE
